@@ -103,11 +103,24 @@ impl Context {
         let n = name.into();
         let regex = Regex::new(&value.0).unwrap();
         self.defs.insert(n.clone(), value.0.clone());
+        // The set of patterns is compiled as a whole and has a size limit: when the current
+        // set cannot take this pattern as well, the macro starts a new set
+        let mut patterns = self.defs_ex_ex.last().unwrap().clone();
+        patterns.push(value.0.clone());
+        let set = match RegexSet::new(&patterns) {
+            Ok(set) => set,
+            Err(_) => {
+                self.regex_sets.push(RegexSet::empty());
+                self.defs_ex.push(Vec::new());
+                self.defs_ex_ex.push(Vec::new());
+                self.regexes.push(Vec::new());
+                RegexSet::new([&value.0]).unwrap()
+            }
+        };
         self.defs_ex.last_mut().unwrap().push(n);
         self.defs_ex_ex.last_mut().unwrap().push(value.0);
         self.regexes.last_mut().unwrap().push((regex, value.1));
-        *self.regex_sets.last_mut().unwrap() =
-            RegexSet::new(self.defs_ex_ex.last().unwrap()).unwrap();
+        *self.regex_sets.last_mut().unwrap() = set;
         if self.defs_ex.last().unwrap().len() >= 100 {
             // Create a new regex_set
             self.regex_sets.push(RegexSet::empty());
